@@ -363,7 +363,30 @@ def same_enumeration(ctx):
     par = ctx.prog.parent.get(hc[0])
     feeder = par.targets[0].id if isinstance(par, ast.Assign) and isinstance(par.targets[0], ast.Name) else None
     dr = [l for l in loops if l.iter.id == feeder]
-    if len(dr) != 1:
+    # info['pieces'] = <empty bytes>.join(feeder) (directly, or through one local): the same concatenation, by the library
+    joins = []
+    for n in own_nodes(fn.node):
+        if isinstance(n, ast.Call) and isinstance(n.func, ast.Attribute) and n.func.attr == "join" and norm(n.func.value) in ("bytearray()", "b''", "bytes()") \
+                and len(n.args) == 1 and isinstance(n.args[0], ast.Name) and n.args[0].id == feeder and feeder is not None:
+            joins.append(n)
+    if not dr and len(joins) == 1:
+        j = joins[0]
+        top = j
+        par_j = ctx.prog.parent.get(j)
+        if isinstance(par_j, ast.Call) and isinstance(par_j.func, ast.Name) and par_j.func.id in ("bytes", "bytearray") and par_j.args == [j]:
+            top, par_j = par_j, ctx.prog.parent.get(par_j)
+        stored = isinstance(par_j, ast.Assign) and par_j.value is top and len(par_j.targets) == 1 and (
+            (isinstance(par_j.targets[0], ast.Subscript) and const_str(par_j.targets[0].slice) == "pieces")
+            or (isinstance(par_j.targets[0], ast.Name) and len([1 for x in own_nodes(fn.node) if isinstance(x, ast.Name) and x.id == par_j.targets[0].id and isinstance(x.ctx, ast.Store)]) == 1
+                and any(isinstance(n, ast.Assign) and isinstance(n.targets[0], ast.Subscript) and const_str(n.targets[0].slice) == "pieces" and norm(n.value) == par_j.targets[0].id for n in own_nodes(fn.node))))
+        other_uses = [x for x in own_nodes(fn.node) if isinstance(x, ast.Name) and x.id == feeder and isinstance(x.ctx, ast.Load) and x is not j.args[0]]
+        consumed_before = [x for x in other_uses if isinstance(ctx.prog.parent.get(x), (ast.For, ast.Call, ast.comprehension, ast.Starred))]
+        if stored and consumed_before:
+            ctx.undecided("C01.5", fn, "the hasher object is also handed to `%s`; whether that consumes hashes before the join is not decided" % norm(ctx.prog.parent.get(consumed_before[0]))[:60], j)
+        else:
+            ctx.decide("C01.5", fn, stored, "the piece string is the library concatenation (join), in order, of every hash the hasher yields",
+                       "the piece string is not the plain concatenation of everything the hasher yields", j)
+    elif len(dr) != 1:
         ctx.undecided("C01.5", fn, "loop draining the hasher not found")
     else:
         l = dr[0]
